@@ -1,10 +1,10 @@
 SPECIFICATION Spec
 CONSTANTS
-  MaxOps = 4
+  MaxOps = 3
   MaxTimers = 2
-  AddOffsets <- AddOffsKeys1
-  RunOffsets <- RunOffsKeys
-  Kinds <- VarDflt
+  AddOffsets <- AddOffsSub
+  RunOffsets <- RunOffsSub
+  Kinds <- AllKinds
   ClampModMin = TRUE
 INVARIANT NoViolation WindowInv SlotInv ExportInv
 VIEW View
